@@ -469,6 +469,12 @@ func c09Check(env *core.Env, cc core.Case) core.Verdict {
 		return core.Incon("cannot write tree: %v", err)
 	}
 	v := core.Verdict{Status: core.Held, Features: []string{"lane:" + c.Lane}, Counts: map[string]int{}}
+	if len(c.Content)%9 == 4 {
+		// the file is write-protected (a read-only checkout): format either brings it into the canonical layout or
+		// fails; it never reports success and leaves the file as it was
+		_ = os.Chmod(filepath.Join(root, fmtTargetOf(c)), 0o444)
+		v.Features = append(v.Features, "read-only-file")
+	}
 	before := sut.Snap(root)
 
 	// --check on x never writes
